@@ -480,6 +480,19 @@ def manager_and_loop_model(rep, rec, path):
             'wrapped for another manager: %s' % (name, (cls + '.') if cls else '', fname, line,
                                                  x, text),
             dict(file=name, function=fname, cls=cls, line=line))
+    try:
+        bad3, n3 = P.index_level_confusions(path)
+    except Exception as e:  # noqa
+        bad3, n3 = [], 0
+        rep.note('%s: index/level scan failed (%r)' % (name, e))
+    rep.add('evaluations', n3)
+    rep.add('permutation_lookups_scanned', n3)
+    for cls, fname, line, text, k, want in bad3:
+        rec('index-level:%s:%s' % (name, fname),
+            '%s:%s%s line %s: a variable %s is handed to a primitive that expects a %s '
+            '(perm[index] = level, invperm[level] = index): %s' % (
+                name, (cls + '.') if cls else '', fname, line, k, want, text),
+            dict(file=name, function=fname, cls=cls, line=line))
     for cls, fname, line, base in bad2:
         rec('container-reuse:%s:%s' % (name, fname),
             '%s:%s%s line %s: the references parked in `%s` are released inside a loop, but the '
